@@ -236,6 +236,19 @@ class PausableMotor(Motor):
         self.H.led([self.name, "resume", None])
 
 
+class AsyncStopMotor(Motor):
+    """stop() is a coroutine that really suspends once (implementation-only probes): the engine awaits it while it stops
+    the motors -- during a pause, and in the exit block of _run"""
+
+    async def stop(self, *, success=True):
+        self.H.led([self.name, "stop", None if success else "fail"])
+        await asyncio.sleep(0)
+        if not success:
+            for st in list(self.H.statuses):
+                if st.dev == self.name and not st.done:
+                    st.finish(False)
+
+
 class AsyncPausableMotor(Motor):
     """pause() is a coroutine that really suspends once (an extra suspension point of _run inside the pause
     sequence, arrival kind "hook"); used by implementation-only probes, not part of the Lean model"""
@@ -328,6 +341,8 @@ class Harness:
         self.max_arrivals = sc.get("max_arrivals", 400)
         for name, spec in sc.get("devices", {}).items():
             motor_cls = AsyncPausableMotor if spec.get("pausable") in ("async", "async-slow") else (PausableMotor if spec.get("pausable") else Motor)
+            if spec.get("stoppable") == "async":
+                motor_cls = AsyncStopMotor
             cls = {"motor": motor_cls, "det": Det, "sig": Sig, "anon": AnonStageable}[spec["kind"]]
             self.devs[name] = cls(self, name, spec)
 
